@@ -38,6 +38,9 @@ def to_ast(e, ids):
         return node("sym", s=name, i=i)
     if k == "str":
         return node("str", s=e[1], i=ids.next())
+    if k == "src":
+        i = ids.next()
+        return node("str", s=P.render(e), c=[to_ast(x, Ids()) for x in e[1]], i=i)
     if k == "q":
         inner = to_ast(e[1], ids)
         if not inner["q"]:
@@ -49,7 +52,7 @@ def to_ast(e, ids):
 
 def prog_record(pid, evals, cfg=None):
     ids = Ids()
-    c = {"tro": True, "budget": 0, "cancel": 0, "maxphys": 25000, "maxtail": 1000000, "maxnest": 100000, "maxmacro": 1000}
+    c = {"tro": True, "budget": 0, "cancel": 0, "noctx": 0, "maxphys": 25000, "maxtail": 1000000, "maxnest": 100000, "maxmacro": 1000}
     c.update(cfg or {})
     return {"id": pid, "cfg": c, "evals": [[to_ast(f, ids) for f in forms] for forms in evals]}
 
@@ -63,6 +66,8 @@ def driver_cfg(cfg):
         d["maxsteps"] = c["budget"]
     if c.get("cancel"):
         d["cancel_at"] = c["cancel"]
+    if c.get("noctx"):
+        d["noctx_first"] = c["noctx"]
     for k in ("maxphys", "maxtail", "maxnest", "maxmacro"):
         if k in c:
             d[k] = c[k]
@@ -117,6 +122,20 @@ def nr(v):
     return ("other", t, json.dumps(v, sort_keys=True))
 
 
+WILD = ("str", "#msg")
+
+
+def veq(m_, r_):
+    """model normal form vs real normal form; the model's "#msg" string matches any real value"""
+    if m_ == WILD:
+        return True
+    if isinstance(m_, tuple) and isinstance(r_, tuple):
+        if len(m_) != len(r_):
+            return False
+        return all(veq(a, b) for a, b in zip(m_, r_))
+    return m_ == r_
+
+
 def frames_m(fs):
     return [(f["name"], bool(f["term"]), bool(f["tro"]), f["iters"]) for f in fs]
 
@@ -148,7 +167,7 @@ def compare_eval(me, re_, check_steps=True, check_frames=True):
     mp, rp = me["probes"], (re_.get("probes") or [])
     for j, (a, b) in enumerate(zip(mp, rp)):
         ta, tb = tuple(nm(x) for x in a["tag"]), tuple(nr(x) for x in b["tag"])
-        if ta != tb:
+        if not veq(ta, tb):
             return "probe %d tag: model %r real %r" % (j, ta, tb)
         if check_frames and frames_m(a["frames"]) != frames_r(b["frames"]):
             return "probe %d frames: model %r real %r" % (j, frames_m(a["frames"]), frames_r(b["frames"]))
@@ -160,7 +179,7 @@ def compare_eval(me, re_, check_steps=True, check_frames=True):
             return "probe %d package: model %s real %s" % (j, a["pkg"], b["pkg"])
     if len(mp) != len(rp):
         return "probe count: model %d real %d" % (len(mp), len(rp))
-    if mv != rv:
+    if not veq(mv, rv):
         return "value: model %r real %r" % (mv, rv)
     if check_steps and me["steps"] != re_["steps"]:
         return "final steps: model %d real %d" % (me["steps"], re_["steps"])
